@@ -67,6 +67,9 @@ type Out struct {
 	CallGraphs map[string]*CG    `json:"callgraphs"`
 	ErrSites   []ErrSite         `json:"errsites"`
 	Globals    []Global          `json:"globals"`
+	// C10 (metricsprog.go, accesses.go)
+	MetricsProgs  []*MProg            `json:"metrics_progs"`
+	MetricsFields map[string][]string `json:"metrics_fields"`
 }
 
 func main() {
@@ -125,6 +128,7 @@ func main() {
 		}
 	}
 	globals(prog, pkgs, out)
+	metricsProgs(byPath, out)
 
 	b, _ := json.MarshalIndent(out, "", " ")
 	if err := os.WriteFile(*outJSON, b, 0o644); err != nil {
